@@ -85,11 +85,29 @@ def run_harness(args, cwd, timeout=1800, env_extra=None):
     if env_extra:
         env.update(env_extra)
     t0 = time.time()
+    # the library's own log goes to the driver's stdout; a tree that panics on every step writes gigabytes: to files, tails read
+    fo, fe = os.path.join(cwd, ".harness.%s.out" % args[0]), os.path.join(cwd, ".harness.%s.err" % args[0])
+
+    def tail(path, n):
+        try:
+            with open(path, "rb") as f:
+                f.seek(0, 2)
+                size = f.tell()
+                f.seek(max(0, size - n))
+                return f.read().decode("utf-8", "replace")
+        except OSError:
+            return ""
     try:
-        p = subprocess.run([exe] + [str(a) for a in args], cwd=cwd, env=env, stdout=subprocess.PIPE,
-                           stderr=subprocess.PIPE, text=True, timeout=timeout)
+        with open(fo, "wb") as so, open(fe, "wb") as se:
+            p = subprocess.run([exe] + [str(a) for a in args], cwd=cwd, env=env, stdout=so, stderr=se, timeout=timeout)
     except subprocess.TimeoutExpired:
         raise Inconclusive("harness %s timed out after %ss" % (args[0], timeout))
+    p.stdout, p.stderr = tail(fo, 20000), tail(fe, 8000)
+    for f in (fo, fe):
+        try:
+            os.unlink(f)
+        except OSError:
+            pass
     if p.returncode != 0:
         raise Inconclusive("harness %s exited %d:\n%s\n%s" % (args[0], p.returncode, p.stdout[-2000:], p.stderr[-4000:]))
     log("[harness] %s %.1fs %s" % (args[0], time.time() - t0, p.stdout.strip().replace("\n", " | ")[:300]))
@@ -292,11 +310,16 @@ def save_replay(pid, name, payload):
     return path
 
 
+CURRENT = None   # the report of the running check (bin/check: violations of completed parts survive an inconclusive later part)
+
+
 class Report:
     """Collects what a check run covered and produces evidence + exit code."""
 
     def __init__(self, pid, tier, seed, level="model_checking"):
         self.pid, self.tier, self.seed, self.level = pid, tier, seed, level
+        global CURRENT
+        CURRENT = self
         self.t0 = time.time()
         self.states = 0
         self.transitions = 0
